@@ -275,7 +275,9 @@ def native_bounded(ctx):
     scope = ("one gas network (6 junctions, 4 pipes with a pipe-attached valve, junction valve, pump, pressure control, 2 external grids): "
              "all 2^k in_service / opened patterns with consistent junction flags; unsupplied_junctions + out-of-service junctions against the "
              "NaN pattern of res_junction.p_bar, connected components against the solver's islands, one edge per in-service "
-             "junction-junction element, distances against an independent Dijkstra over pipe lengths; multigraph and simple graph")
+             "junction-junction element, distances against an independent Dijkstra over pipe lengths; multigraph and simple graph; pipe labels "
+             "differ from row positions; all 8 combinations of respect_status_pipes / _valves / _pumps on a net with one element of each "
+             "kind switched off (each option acts on its own component only)")
     for k, v in res.items():
         ctx.bounded(k, v["ok"], scope=scope, cases=v["cases"], witness=v.get("witness"),
                     replay={"handler": "bounded_named", "input": {"what": "graph_vs_solver", "check": k}} if not v["ok"] else None)
